@@ -108,8 +108,10 @@ def gen_history(rng, length):
             hist.append({"op": "recheck", "meta": rng.choice(metas), "content": rng.choice(["p", "."]),
                          "reuse": rng.random() < 0.5})
         elif r < 0.9:
+            dests = [o["dest"] for o in hist if o["op"] == "rebuild"]
             hist.append({"op": "rebuild", "metas": [rng.choice(metas)], "contents": ["p"],
-                         "dest": f"dest{counter}"})
+                         # sometimes into a destination an earlier rebuild already filled
+                         "dest": rng.choice(dests) if dests and rng.random() < 0.4 else f"dest{counter}"})
         else:
             hist.append({"op": "magnet", "meta": rng.choice(metas)})
     # epilogues: the same question asked again after the content changed under it
@@ -129,7 +131,18 @@ def gen_history(rng, length):
         {"op": "create", "kind": last[0], "path": "p", "out": f"e{counter}b.torrent", "pl": pl2,
          "reuse": f"E{counter}" if pl2 else None},
         {"op": "rebuild", "metas": [f"e{counter}b.torrent"], "contents": ["p"], "dest": f"edest{counter}b"},
+        # the same rebuild once more (everything is already there), then again into the destination
+        # of the EARLIER state, then after a destination file was cut short
+        {"op": "rebuild", "metas": [f"e{counter}b.torrent"], "contents": ["p"], "dest": f"edest{counter}b"},
+        {"op": "rebuild", "metas": [f"e{counter}b.torrent"], "contents": ["p"], "dest": f"edest{counter}a"},
+        {"op": "fs", "kind": "shrink", "rel": f"edest{counter}b/p/late/arrival{counter}", "by": 5000},
+        {"op": "rebuild", "metas": [f"e{counter}b.torrent"], "contents": ["p"], "dest": f"edest{counter}b"},
         {"op": "recheck", "meta": f"e{counter}b.torrent", "content": f"edest{counter}b"},
+        # a single-file torrent rebuilt twice into one destination
+        {"op": "fs", "kind": "add", "rel": "solo.bin", "data": f"r{counter}.40000"},
+        {"op": "create", "kind": last[1], "path": "solo.bin", "out": f"solo{counter}.torrent", "pl": 16384},
+        {"op": "rebuild", "metas": [f"solo{counter}.torrent"], "contents": ["."], "dest": f"sdest{counter}"},
+        {"op": "rebuild", "metas": [f"solo{counter}.torrent"], "contents": ["."], "dest": f"sdest{counter}"},
         {"op": "edit", "cli": True, "flags": [], "meta": f"e{counter}a.torrent",
          "req": {"comment": "only a comment " + str(counter)}},
         {"op": "edit", "cli": True, "flags": [], "meta": f"e{counter}b.torrent",
